@@ -16,6 +16,14 @@ pub struct Case {
     pub opts: Opts,
     pub tree: Tree,
     pub patterns: Vec<String>,
+    /// If set, the archive that is backed up with the exclusions already holds a version of
+    /// the same tree made with *these* patterns (possibly none): the version under test is
+    /// then an incremental one over a basis that was filtered differently.
+    #[serde(default)]
+    pub basis_patterns: Option<Vec<String>>,
+    /// Hand the patterns over in a pattern file (`Exclude::from_patterns_and_files`).
+    #[serde(default)]
+    pub via_file: bool,
 }
 
 #[derive(Debug, Clone)]
@@ -176,10 +184,13 @@ fn strategy(_tier: Tier) -> BoxedStrategy<Case> {
     (
         tree::opts_tree_strategy(cfg),
         prop::collection::vec(pat_strategy(), 0..=4),
+        prop::option::weighted(0.3, prop::collection::vec(pat_strategy(), 0..=3)),
+        prop::bool::weighted(0.25),
     )
-        .prop_map(|((opts, tree), specs)| {
+        .prop_map(|((opts, tree), specs, basis, via_file)| {
             let patterns = specs.iter().filter_map(|s| resolve(s, &tree)).collect();
-            Case { opts, tree, patterns }
+            let basis_patterns = basis.map(|b| b.iter().filter_map(|s| resolve(s, &tree)).collect());
+            Case { opts, tree, patterns, basis_patterns, via_file }
         })
         .boxed()
 }
@@ -268,13 +279,30 @@ fn run(case: &Case, cx: &mut Cx) -> CaseResult {
         .collect();
     let all_below: usize = case.tree.0.len() - 1;
 
-    // (1) backup with the exclusions, decoded independently
+    // (1) backup with the exclusions, decoded independently; in some cases over a basis
+    // version of the same tree that was made with other patterns
+    let mut band_ex = 0u32;
+    if let Some(bp) = &case.basis_patterns {
+        let b = ops::backup(&arch_ex, &None, &src, case.opts, bp);
+        ensure!(!ops::backup_reported_error(&b), "C15/backup-error", "basis, patterns {bp:?}: {}", b.describe());
+        band_ex = 1;
+    }
+    struct FileRoute;
+    impl Drop for FileRoute {
+        fn drop(&mut self) {
+            ops::set_exclude_file(None);
+        }
+    }
+    let _route = FileRoute;
+    if case.via_file {
+        ops::set_exclude_file(Some(cx.dir("patterns.txt")));
+    }
     let b = ops::backup(&arch_ex, &None, &src, case.opts, pats);
     ensure!(!ops::backup_reported_error(&b), "C15/backup-error", "patterns {pats:?}: {}", b.describe());
     let ra = format::scan(&arch_ex);
     let stored: BTreeSet<String> = ra
         .bands
-        .get(&0)
+        .get(&band_ex)
         .map(|b| b.all_entries().into_iter().map(|e| e.apath.clone()).filter(|p| p != "/").collect())
         .unwrap_or_default();
 
@@ -317,6 +345,8 @@ fn run(case: &Case, cx: &mut Cx) -> CaseResult {
 
     let excluded_n = all_below - model.len();
     cx.label_if(pats.is_empty(), "no-patterns");
+    cx.label_if(case.basis_patterns.is_some(), "over-a-basis-filtered-differently");
+    cx.label_if(case.via_file && pats.iter().any(|p| ops::file_safe_pattern(p)), "patterns-from-a-file");
     cx.label_if(excluded_n > 0, "excludes-something");
     cx.label_if(via_ancestor, "excluded-via-ancestor");
     cx.label_if(pats.iter().any(|p| p.starts_with('/')), "anchored");
@@ -341,6 +371,8 @@ fn enumerate(_tier: Tier, idx: u32, of: u32, cx: &mut Cx) -> CaseResult {
         opts: Opts { hunk: 10, ..opts },
         tree,
         patterns: vec!["*7".to_string(), "/w0/f0001*".to_string(), "w1/f1000?".to_string()],
+        basis_patterns: None,
+        via_file: false,
     };
     crate::engine::heartbeat();
     run(&case, &mut cx2).map_err(|mut f| {
